@@ -16,11 +16,7 @@ KANI_FILES = {
 
 # module -> native replay/search file(s) under contracts/native appended to that module's mirror (cfg verif_replay)
 NATIVE_FILES = {
-    "network": ["layers.rs", "network.rs"],
-    "feedback": ["feedback.rs"],
-    "maxpool": ["maxpool.rs"],
-    "convolution": ["convolution.rs"],
-    "deconvolution": ["deconvolution.rs"],
+    "network": ["layers.rs"],
 }
 
 PLAN = {
@@ -105,6 +101,15 @@ PLAN = {
         kani=True,
         undecided_clauses=["iterator zips over more cells than the listed small shapes (the element formula itself is proved for every cell)",
                            "transpose beyond 1x2 / 2x2 (CBMC solver error on larger ones)", "nested-list add / div (recursion over Tensor)"],
+    ),
+    "C16": dict(
+        title="Skip connections combine source and target inputs as configured",
+        level="proof",
+        verus=["C16_connect.rs"],
+        kani=True,
+        undecided_clauses=["forward accumulation of the skipped input (all five accumulations, flat <-> spatial) and the gradient clause for additive "
+                           "accumulation: network-level harnesses under construction / out of CBMC's reach",
+                           "the element-count comparison inside connect() (two matches over layer kinds + assert_eq!) is not part of the verified regions"],
     ),
     "C18": dict(
         title="The random generator stays in range and shuffling is a safe permutation",
@@ -232,6 +237,17 @@ MANIFEST_TEXT = {
              "of every rank with symbolic contents: result cell = operator on the cells at the same index, shape unchanged and consistent, "
              "mismatched shapes refused; dot / outer product against their index definitions; clamp into the interval for every f32 (complete).",
         note="F1 uninterpreted floats in Verus; iterator zip order covered by the bounded harnesses only.",
+    ),
+    "C16": dict(
+        category="proof",
+        technique="Verus contracts over vstd's HashMap model on the guard and insert regions of Network::connect",
+        design_ref="DESIGN.md §5 C16",
+        text="Proof for all maps and all index pairs: on the two regions of Network::connect that touch the connection table (index / duplicate "
+             "guard, final insert) Verus shows (a) whenever the call returns, every earlier mapping is still present and unchanged and the new "
+             "one is recorded (rejecting is the only alternative), and (b) a valid pair whose source and target differ from every connected "
+             "source and target is never rejected. Failing obligations are replayed by a native enumeration of call pairs on real networks.",
+        note="vstd's specification of std::collections::HashMap; the element-count comparison in the middle of connect() is dropped from the "
+             "unit; the forward-pass accumulation clause is not yet covered.",
     ),
     "C18": dict(
         category="proof",
